@@ -39,6 +39,7 @@ MUTATION_CLASSES = [
     "wrong-pubkey", "wrong-script", "foreign-script-with-its-sigs", "control-block-byte", "control-block-length", "leaf-script-byte",
     "truncate-witness", "empty-auth", "annex-only", "annex-plus-junk", "sigfree-scriptsig-extras", "scriptsig-on-native-witness",
     "junk-before-wrapped-redeem", "legacy-style-spend-of-witness-output", "witness-script-op-true", "sig-for-other-input",
+    "witness-program-shape-in-scriptsig", "undefined-sighash-byte",
 ]
 
 GATES = {
@@ -49,6 +50,7 @@ GATES = {
     "op-contracts-ran": ["op_checksig", "op_checkmultisig", "op_checksig_schnorr", "op_checksigadd_schnorr"],
     "evaluate-rules": ["rule:p2sh", "rule:p2wpkh", "rule:p2wsh", "rule:p2tr-key", "rule:p2tr-script"],
     "in-place-histories": ["history:in-place-edit-then-verify"],
+    "shape-confusion-negatives-proved": ["negcls:witness-program-shape-in-scriptsig", "negcls:undefined-sighash-byte"],
 }
 
 
@@ -462,6 +464,13 @@ def mutations(rng, model, spent, index, meta):
         else:
             nb = blob[:-1] + bytes([rng.choice([x for x in (1, 2, 3, 0x81, 0x82, 0x83) if x != blob[-1]])])
         put_item(m, index, sl, nb); yield "flip-sighash-byte", m, s  # noqa: E702
+        if not taproot:
+            # hash type bytes outside the named set: the digest still commits to the byte as it stands, so a
+            # signature made for ALL does not become valid under 0x00 / 0x04 / 0x80 / 0xff ("treated like ALL")
+            for hb in (0x00, rng.choice([0x04, 0x80, 0x84, 0xFF, 0x41])):
+                m, s = fresh()
+                put_item(m, index, sl, blob[:-1] + bytes([hb]))
+                yield "undefined-sighash-byte", m, s
         if len(model["ins"]) > 1:
             # a perfectly valid signature by the right key - but made for another input of the same transaction
             other = (index + 1) % len(model["ins"])
@@ -578,6 +587,48 @@ def mutations(rng, model, spent, index, meta):
                 m, s = fresh(); set_ss(m, index, v)  # noqa: E702
                 m["ins"][index]["witness"] = [b"", b""] if kind == "p2sh-p2wpkh" else m["ins"][index]["witness"]
                 yield "junk-before-wrapped-redeem", m, s
+    # witness-program shaped pushes planted in the scriptSig of an output that is NOT a witness program, with the
+    # attacker's own key / script and a valid signature for it in the witness: an interpreter that recognises
+    # "0 <20 bytes>", "0 <32 bytes>" or "1 <32 bytes>" by the shape of the stack instead of by the scriptPubKey
+    # (or the sole-push redeem script) would let the attacker's witness decide the spend
+    if kind in ("p2pkh", "p2pkh-uncompressed", "p2sh-ms", "p2sh-p2wpkh", "p2sh-p2wsh-ms"):
+        d = rng.randrange(1, ec.N)
+        sec_d = ec.sec(ec.mul(d))
+        x_d = spend.hash160(sec_d)
+        tail = [ss_cmds(model, index)[-1]] if kind.startswith("p2sh") else []
+        p2pkh_code = sh.p2pkh_script(x_d)
+        own_ws = tc.script_bytes([0x51])
+        for pre_name in ("v0-keyhash", "v0-scripthash-op-true", "v1-key"):
+            for code_name in ("legacy-committed-script", "legacy-spk", "bip143-p2pkh"):
+                m, s = fresh()
+                if pre_name == "v0-keyhash":
+                    set_ss(m, index, [0, x_d] + tail)
+                    m["ins"][index]["witness"] = [b"", sec_d]
+                    if code_name == "legacy-committed-script":
+                        dg = sh.legacy(m, index, tail[0] if tail else s[index]["script"], 1)
+                    elif code_name == "legacy-spk":
+                        dg = sh.legacy(m, index, p2pkh_code, 1)
+                    else:
+                        dg = sh.bip143(m, index, p2pkh_code, s[index]["amount"], 1)
+                    r_, s_, _, _ = ec.ecdsa_sign(d, int.from_bytes(dg, "big"))
+                    m["ins"][index]["witness"][0] = ec.der(r_, s_) + b"\x01"
+                elif pre_name == "v0-scripthash-op-true":
+                    if code_name != "legacy-committed-script":
+                        continue
+                    set_ss(m, index, [0, sh.sha256(own_ws)] + tail)
+                    m["ins"][index]["witness"] = [own_ws]
+                else:
+                    if code_name != "legacy-committed-script":
+                        continue
+                    set_ss(m, index, [0x51, ec.b32(ec.mul(d)[0])] + tail)
+                    # BIP341 key-path signature by the attacker's (even-y) key over this transaction
+                    dd = d if ec.mul(d)[1] % 2 == 0 else ec.N - d
+                    try:
+                        dg = sh.bip341(m, index, s, 0, 0, None, None)
+                    except Exception:  # noqa: BLE001
+                        dg = rng.randbytes(32)
+                    m["ins"][index]["witness"] = [ec.schnorr_sign(dd, dg, rng.randbytes(32))[0]]
+                yield "witness-program-shape-in-scriptsig", m, s
     if kind in ("p2wpkh", "p2wsh-ms") or taproot:
         for v in ([0x51], [b"\x01"], [rng.randbytes(4)], [0x51, 0x51], [0x00, 0x51]):
             m, s = fresh(); set_ss(m, index, v); m["ins"][index]["witness"] = []; yield "scriptsig-on-native-witness", m, s  # noqa: E702
@@ -612,6 +663,7 @@ def judge_negative(ctx, cls, kind, model, spent, index):
         return
     ctx.count("neg:proved-unauthorised")
     ctx.count("negkind:" + kind)
+    ctx.count("negcls:" + cls)
     o = lib_verify(model, spent, index)
     ctx.monitor("verify_input-negative")
     if o[0] == "ok" and o[1]:
